@@ -203,7 +203,9 @@ impl Parser {
                 let mut allow_self_type = Cow::Borrowed(lhs_ty);
                 let mut assume_self_is_on_top = true;
 
-                if matches!(lhs_ty, TypeLayout::Class(..)) && !function_type.is_associated_fn() {
+                if matches!(lhs_ty.disregard_distractors(true), TypeLayout::Class(..))
+                    && !function_type.is_associated_fn()
+                {
                     // a field that holds a function value is not a method: it takes exactly
                     // the arguments it is given, without the object in front of them
                     assume_self_is_on_top = false;
